@@ -41,7 +41,8 @@ FrameViol(m, f) ==
     ELSE IF f.n = Len(f.head) + PLen(m) /\ f.head \in Heads(m) THEN PayloadViol(m, f)
     ELSE IF m.k = "handshake" THEN "C11.handshake"
     ELSE IF m.k = "keepalive" THEN "C11.keepalive"
-    ELSE IF f.n # Len(f.head) + PLen(m) \/ Len(f.head) < 5 \/ SubSeq(f.head, 1, 4) # U32I(f.n - 4) THEN "C11.frame"
+    \* frames are cut by their own length prefix, so a wrong prefix shows as a frame of the wrong size
+    ELSE IF f.n \notin {Len(h) + PLen(m) : h \in Heads(m)} \/ Len(f.head) < 5 \/ SubSeq(f.head, 1, 4) # U32I(f.n - 4) THEN "C11.frame"
     ELSE IF f.head[5] # Id(m.k) THEN "C11.id"
     ELSE IF m.k \in ExtKinds THEN "C11.ext"
     ELSE "C11.fields"
